@@ -473,6 +473,19 @@ pub fn txs_shapes() -> Vec<RTx> {
             }
         });
     }
+    // byte strings that are also valid text in every byte field (scripts, witness items)
+    for (k, t) in TEXTY.iter().enumerate() {
+        let t2 = TEXTY[(k + 1) % TEXTY.len()];
+        let mut i = txin_rep(IN_KINDS[k % 6], 0);
+        i.script_sig = t.to_vec();
+        i.wit.script_wit = vec![t.to_vec(), t2.to_vec()];
+        if i.is_pegin {
+            i.wit.pegin_wit = vec![t2.to_vec()];
+        }
+        let mut o = txout_rep(k);
+        o.script = t2.to_vec();
+        out.push(RTx { version: 2, lock_time: 0, ins: vec![i], outs: vec![o] });
+    }
     out
 }
 
@@ -546,8 +559,21 @@ pub fn full_params(thorough: bool) -> Vec<RFull> {
             }
         }
     }
+    // byte strings that happen to be valid UTF-8 / hex text (self-describing serde formats may treat text and bytes alike)
+    for (k, t) in TEXTY.iter().enumerate() {
+        out.push(RFull {
+            signblockscript: t.to_vec(),
+            limit: k as u32,
+            fedpeg_program: TEXTY[(k + 1) % TEXTY.len()].to_vec(),
+            fedpegscript: TEXTY[(k + 2) % TEXTY.len()].to_vec(),
+            ext: vec![TEXTY[(k + 3) % TEXTY.len()].to_vec(), t.to_vec()],
+        });
+    }
     out
 }
+
+/// byte contents that are also valid text: hex digits (even and odd count), upper-case hex, plain ASCII, UTF-8, base64-like
+pub const TEXTY: [&[u8]; 8] = [b"ab", b"deadbeef", b"00", b"CAFE", b"abc", b"hello world", "\u{e9}\u{20ac}".as_bytes(), b"AAEC"];
 
 pub fn params_menu() -> Vec<RParams> {
     let f1 = RFull { signblockscript: vec![0x51], limit: 2, fedpeg_program: vec![0x53], fedpegscript: vec![0x54], ext: vec![vec![5, 6], vec![7]] };
@@ -558,6 +584,7 @@ pub fn params_menu() -> Vec<RParams> {
         RParams::Compact { signblockscript: vec![], limit: 0, elided_root: [0u8; 32] },
         RParams::Full(f1),
         RParams::Full(f2),
+        RParams::Full(RFull { signblockscript: b"ab".to_vec(), limit: 7, fedpeg_program: b"00".to_vec(), fedpegscript: b"deadbeef".to_vec(), ext: vec![b"cafe".to_vec(), b"0f".to_vec()] }),
     ]
 }
 
@@ -580,8 +607,12 @@ pub fn headers() -> Vec<RHeader> {
             }
         }
     }
+    for (j, t) in TEXTY.iter().enumerate() {
+        out.push(RHeader { version: 1, prev: pat32(k), merkle_root: pat32(k + 2), time: 1, height: j as u32, ext: RExt::Proof { challenge: t.to_vec(), solution: TEXTY[(j + 1) % TEXTY.len()].to_vec() } });
+        k += 1;
+    }
     let pm = params_menu();
-    let wits: Vec<Vec<Vec<u8>>> = vec![vec![], vec![vec![]], vec![vec![1], vec![2, 3]], vec![blob(253, 31), vec![7]], vec![vec![9], blob(252, 32)]];
+    let wits: Vec<Vec<Vec<u8>>> = vec![vec![], vec![vec![]], vec![vec![1], vec![2, 3]], vec![blob(253, 31), vec![7]], vec![vec![9], blob(252, 32)], vec![b"abcd".to_vec(), b"ff".to_vec()]];
     for c in &pm {
         for p in &pm {
             for w in &wits {
